@@ -459,6 +459,31 @@ class FnRewriter:
             if k > n:
                 raise ExtractError("lost anchor: iter/map/collect #%d in %s" % (k, self.name))
 
+    def r15_enumerate(self):
+        """`for (i, x) in e.iter().enumerate() {` -> `for i in 0..e.len() { let x = &e[i];`"""
+        want = self.opts.get("enumerate", set())
+        if not want:
+            return
+        toks = self.toks
+        loops = self.loops()
+        for n in want:
+            if n > len(loops):
+                raise ExtractError("lost anchor: loop #%d in %s" % (n, self.name))
+            kw, lb = loops[n - 1]
+            hdr = toks[kw + 1:lb]
+            texts = [t.text for t in hdr]
+            # ( i , x ) in EXPR . iter ( ) . enumerate ( )
+            if not (toks[kw].text == "for" and texts[0] == "(" and texts[2] == "," and texts[4] == ")" and texts[5] == "in"
+                    and texts[-8:] == [".", "iter", "(", ")", ".", "enumerate", "(", ")"]):
+                raise ExtractError("lost anchor: loop #%d of %s is not `for (i, x) in e.iter().enumerate()`" % (n, self.name))
+            iv, xv = texts[1], texts[3]
+            e_first = kw + 1 + 6
+            e_last = lb - 9
+            etext = self.text_of(e_first, e_last)
+            self.edit(toks[kw + 1].start, toks[lb - 1].end, "%s in 0..%s.len()" % (iv, etext), "R15")
+            self.edit(toks[lb].end, toks[lb].end, " let %s = &%s[%s];" % (xv, etext, iv), "R15")
+            self.rule("R15")
+
     def r8_signature(self):
         toks = self.toks
         it = self.item
@@ -647,6 +672,7 @@ class FnRewriter:
         self.r6_closures()
         self.r13_mapcollect()
         self.r13b_itermapcollect()
+        self.r15_enumerate()
         self.subst()
         self.replace_calls()
         self.r11_anyhow()
@@ -818,6 +844,35 @@ class Assembler:
                     expect_name = False
                 q += 1
         for a in args[2:]:
+            if a.startswith("retype="):
+                # retype=<field>:<Type>  -- a dependency type for which the prelude has a stub under another name
+                for pair in a[len("retype="):].split(","):
+                    fname, newty = pair.split(":")
+                    i = it["body_open"] + 1
+                    done = False
+                    while i < it["body_close"]:
+                        if toks[i].kind == "id" and toks[i].text == fname and toks[i + 1].text == ":":
+                            q = i + 2
+                            depth = 0
+                            while q < it["body_close"]:
+                                tx = toks[q].text
+                                if tx == "<":
+                                    depth += 1
+                                elif tx == ">":
+                                    depth -= 1
+                                elif tx == ">>":
+                                    depth -= 2
+                                elif tx == "," and depth == 0:
+                                    break
+                                q += 1
+                            rw.edit(toks[i + 2].start, toks[q - 1].end, newty, "R11")
+                            self.rule_counts["R11"] = self.rule_counts.get("R11", 0) + 1
+                            done = True
+                            break
+                        i += 1
+                    if not done:
+                        raise ExtractError("lost anchor: field %s of struct %s" % (fname, args[1]))
+                continue
             if a == "pad":
                 # R10b: a struct whose fields are all floats gets no typing invariant for them in Verus' encoding
                 # (has_type of a float field is then unprovable); an unused integer field restores it.
@@ -955,7 +1010,7 @@ class Assembler:
                 self.do_trait(parts[1:], extra)
             elif cmd == "fn":
                 sections = []
-                opts = {"assert_modes": {}, "floatcasts": set(), "opassign": [], "closures": {}, "replace": [], "mapcollect": {}, "itermapcollect": set()}
+                opts = {"assert_modes": {}, "floatcasts": set(), "opassign": [], "closures": {}, "replace": [], "mapcollect": {}, "itermapcollect": set(), "enumerate": set()}
                 j = i + 1
                 cur = None
                 while True:
@@ -994,6 +1049,9 @@ class Assembler:
                                 d["name"] = p2[3]
                             else:
                                 d["contract"] = p2[3]
+                            cur = None
+                        elif c2 == "enumerate":
+                            opts["enumerate"].add(int(p2[1]))
                             cur = None
                         elif c2 == "itermapcollect":
                             opts["itermapcollect"].add(int(p2[1]))
